@@ -43,7 +43,7 @@ func fill(o *Opts) {
 		o.Flush = 5 * time.Millisecond
 	}
 	if o.Reconn == 0 {
-		o.Reconn = time.Hour
+		o.Reconn = 200 * time.Millisecond // a first dial that fails (e.g. ephemeral ports exhausted for a moment) is retried
 	}
 	if o.IoBuf == 0 {
 		o.IoBuf = 4096
